@@ -117,7 +117,7 @@ def scenarios(ctx):
     common = dict(tick=1, lose=1, raw=1, disconnect=1, rebuild=1, connect=1, connack=1)
     for mode in ('sync', 'async'):
         out.append(Scn('pub-%s' % mode, profile='pub', mode=mode, init=CONNECTED + (('setwin', 0, 2),),
-                       reconnects=[(True, 0, 4)], budgets=dict(common, pub=3, ack=1 if q else 3),
+                       reconnects=[(True, 0, 4)], budgets=dict(common, pub=3 if not q else 2, ack=1 if q else 3, misack=1),
                        pub_qos=(0, 1, 2), lose_kinds=('done', 'lost')))
         out.append(Scn('sub-%s' % mode, profile='sub', mode=mode, init=CONNECTED + (('setwin', 0, 2),),
                        reconnects=[(True, 0, 4)],
